@@ -27,8 +27,22 @@ TEXT = {
  "C17": ("exploration", "corpus, negative fixtures and YAML-sensitive synthetic documents re-spelt by independent JSON/YAML emitters (styles, indentation, comments, quoting, anchors); generated files byte-identical / same diagnostic modulo positions", "rapid PBT, metamorphic oracle (re-spelling invariance)"),
  "C18": ("exploration", "pairs/triples of JSON texts (re-spellings, near-equal mutants incl. >2^53 and huge exponents, malformed texts) against an exact reference comparison; equivalence laws; duplicate-enum rejection through the real schema parser; numeric bounds compared by gen/reduce.go (convenient errors forced) against the same reference", "rapid PBT against an exact reference model + algebraic laws"),
  "C19": ("exploration", "call lists over all operations of regenerated client/server pairs compiled with -race, run sequentially and by 2/8/64 goroutines under several GOMAXPROCS values; race reports, per-call outcome equality with the sequential run, multiset of handler-received arguments", "concurrent PBT under the race detector, sequential-equivalence oracle"),
- "C20": ("fault_enumeration", "47 concrete pre-write failure stages of the built cmd/ogen crossed with fixed and rapid-drawn target-directory states and --clean on/off: exit code and before/after snapshots; success runs check that only own-pattern files are removed/created", "fault enumeration x rapid-drawn directory states, snapshot-equality oracle"),
+ "C20": ("fault_enumeration", "54 concrete pre-write failure stages of the built cmd/ogen crossed with fixed and rapid-drawn target-directory states and --clean on/off: exit code and before/after snapshots; success runs check that only own-pattern files are removed/created", "fault enumeration x rapid-drawn directory states, snapshot-equality oracle"),
 }
+# thorough tiers of these checks end with native coverage-guided campaigns over the same generators and oracles
+for _pid in ("C06", "C08", "C11", "C12", "C13", "C16", "C17", "C18"):
+    _l, _t, _tech = TEXT[_pid]
+    TEXT[_pid] = (_l, _t, _tech + "; the thorough tier adds bounded native coverage-guided fuzzing (go test -fuzz) of the same generators and oracles")
+_l, _t, _tech = TEXT["C01"]
+TEXT["C01"] = (_l, _t + "; fixed parameter-format documents (every type/format pair in every parameter location, one per time format)", _tech)
+_l, _t, _tech = TEXT["C06"]
+TEXT["C06"] = (_l, _t + "; several parameters through one encoder/decoder decode as each does alone", _tech)
+_l, _t, _tech = TEXT["C11"]
+TEXT["C11"] = (_l, _t + "; two-file documents with faults in the referenced file: every position names the file it lies in", _tech)
+_l, _t, _tech = TEXT["C19"]
+TEXT["C19"] = (_l, _t + "; for every second package the first use in the process is concurrent", _tech)
+_l, _t, _tech = TEXT["C10"]
+TEXT["C10"] = (_l, _t + "; every Generator writes its output twice (rendering must not change the IR)", _tech)
 NOTE = "trusted: the oracle code under /verif (reference models written from the specifications, not from ogen), the Go toolchain and rapid; coverage is the explored set counted in the evidence file (exploration never establishes absence); genuine defects already found are listed in known_findings.json / known_findings.d and excluded by narrow classifiers"
 
 ready = set(open(os.path.join(ROOT, "checks.d", "READY")).read().split())
